@@ -46,7 +46,10 @@ ASSUMPTIONS = [
     "domain — the one class on which the constructor raises (negative min_length with a max_length ≥ 0 "
     "and a counted symbol in Σ: InvalidStateError) is stated as theorem C15_of_length_negative_min and "
     "checked as an announced error",
-    "count_mod remainders ⊆ range(k) (others raise InvalidStateError: outside the domain)",
+    "count_mod remainders ⊆ range(k) (others raise InvalidStateError: theorem C15_count_mod_bad_remainder, "
+    "checked as an announced error); a pattern / word symbol outside Σ makes from_prefix, from_subsequence, "
+    "from_finite_language raise a library exception (theorems C15_*_foreign, checked as announced errors); "
+    "from_substring / from_suffix / from_substrings accept such patterns (language theorems without hypothesis)",
     "minimality is claimed only for non-empty patterns over the alphabet, |Σ| ≥ 2, as the property "
     "states; of_length: for ALL numeric parameters and alphabets (C15_of_length_minimal has no hypothesis)",
 ]
